@@ -55,6 +55,7 @@ class Probe:
         self.selfty = selfty
         self.module = tuple(module)
         self.depth = 0
+        self.invoke_hook = None  # callable(probe, fn, self value, args) -> value | NotImplemented, asked before any crate function is entered
         self.intercept = {}  # fn key -> callable(args) -> value
         self.mhooks = {}  # method name -> callable(probe, call expr, env) -> value | NotImplemented (nothing evaluated yet)
         self.lenient = False
@@ -66,6 +67,8 @@ class Probe:
             for v in tab.values():
                 self.flagmask |= v
         self.cur = []  # stack of functions being evaluated
+        self.frames = []  # (fn, self value, argument values) of the calls being evaluated
+        self.invoked = set()  # keys of the crate functions evaluated so far
 
     # ------------------------------------------------------------------ helpers
     def const(self, name):
@@ -100,6 +103,8 @@ class Probe:
                 if b is not None:
                     return b
             return None
+        if isinstance(v, Opq) and k in ("lit", "range", "path", "tstruct", "tuple", "struct", "slice"):
+            raise NoEval("a pattern inspects the unknown %r" % v)
         if k == "lit":
             return {} if v == p["v"] else None
         if k == "ident":
@@ -108,6 +113,8 @@ class Probe:
                 return {} if v is None else None
             ce = self.const(name) if name[:1].isupper() else None
             if ce is not None:
+                if isinstance(v, Opq):
+                    raise NoEval("a pattern inspects the unknown %r" % v)
                 return {} if self.ev(ce, {}) == v else None
             if p.get("sub"):
                 b = self.pmatch(p["sub"], v, env)
@@ -251,7 +258,10 @@ class Probe:
             if op == "||":
                 return self.ev(e["lhs"], env) or self.ev(e["rhs"], env)
             if op in ("==", "!="):
-                r = self.ev(e["lhs"], env) == self.ev(e["rhs"], env)
+                l, r = self.ev(e["lhs"], env), self.ev(e["rhs"], env)
+                if (isinstance(l, Opq) or isinstance(r, Opq)) and l is not r:
+                    raise NoEval("comparison with the unknown %r" % (l if isinstance(l, Opq) else r))
+                r = l == r
                 return r if op == "==" else not r
             if op in ("|=", "&=", "^=", "+=", "-=", "*=", "<<=", ">>="):
                 cont, key = self.place(e["lhs"], env)
@@ -390,6 +400,8 @@ class Probe:
                 return b
             fn = self.find_fn(fv[1]["segs"])
             if fn is not None:
+                if fn.node.get("self") is not None and args:
+                    return self.invoke(fn, args[0], list(args[1:]))  # Type::method used as a function: first argument is self
                 return self.invoke(fn, None, args)
             if fv[1]["segs"][-2:] == ["String", "from"] and len(args) == 1:
                 return args[0]
@@ -406,15 +418,22 @@ class Probe:
     def invoke(self, fn, self_val, args):
         if fn.key in self.intercept:
             return self.intercept[fn.key](args)
+        if self.invoke_hook is not None:
+            r = self.invoke_hook(self, fn, self_val, args)
+            if r is not NotImplemented:
+                return r
         if fn.key in self.opaque_calls:
             allv = ([self_val] if self_val is not None else []) + list(args)
             self.opaque_log.append((fn.key, allv))
             return Opq("%s(%s)" % (fn.key, ", ".join(map(repr, allv))), ("call", fn.key, allv))
         self.cur.append(fn)
+        self.frames.append((fn, self_val, list(args)))
+        self.invoked.add(fn.key)
         try:
             return self._invoke(fn, self_val, args)
         finally:
             self.cur.pop()
+            self.frames.pop()
 
     def _invoke(self, fn, self_val, args):
         env = {}
@@ -459,6 +478,8 @@ class Probe:
             return ""
         if segs[-2:] in (["Vec", "new"], ["Vec", "default"]) and not args:
             return []
+        if segs[-2:] in (["Rc", "new"], ["Box", "new"], ["Arc", "new"]) and len(args) == 1:
+            return args[0]
         if segs[-2:] == ["Vec", "with_capacity"] and len(args) == 1:
             return []
         if segs[-2:] == ["String", "from"] and len(args) == 1:
